@@ -169,8 +169,12 @@ class Inv:
         return (s - self.k, e - self.k)
 
 
+LAST_DIFF = {}
+
+
 def compare(base, other, what):
     errs = []
+    LAST_DIFF.clear()
     for key in base:
         if key not in other:
             continue
@@ -183,6 +187,7 @@ def compare(base, other, what):
                 k0 = sorted(ks, key=str)[0]
                 sub = key
                 if key == "assignments":
+                    LAST_DIFF["assignments"] = list(ks)
                     # a tail exactly apa_delta (50) away from the annotated end: "correct" polyA site on one strand, "alternative" one on
                     # the other, because the polyT position is reported 2 bases off (root cause of the polyT known finding)
                     def strip(v):
@@ -210,8 +215,15 @@ def compare(base, other, what):
                             offs.add(None)
                     if None not in offs:
                         # (0,+2): base model ends at its polyA site, the mirrored run extends the model 2 bases beyond the polyT head;
-                        # (+2,0): the same for a base model on the '-' strand
-                        sub = "models:terminal-offset:polyT-2bp" if offs <= {(0, 2), (2, 0)} else "models:terminal-offset:%s" % sorted(offs)
+                        # (+2,0): the same for a base model on the '-' strand. One error per class of offsets (a scenario may hold models
+                        # of several classes)
+                        p2 = offs & {(0, 2), (2, 0)}
+                        rest = offs - p2
+                        if p2:
+                            errs.append(("models:terminal-offset:polyT-2bp", "%s differ: only base %s, only transformed %s" % (key, oa[:2], ob[:2])))
+                        for o in sorted(rest):
+                            errs.append(("models:terminal-offset:%s" % [o], "%s differ: only base %s, only transformed %s" % (key, oa[:2], ob[:2])))
+                        continue
                 errs.append((sub, "%s differ: only base %s, only transformed %s" % (key, oa[:2], ob[:2])))
     return errs
 
@@ -481,7 +493,29 @@ def case(args):
         errs.append(("transformed-run-failed", "exit %d: %s" % (rc, open(os.path.join(d, "tr.txt")).read()[-300:])))
     else:
         other = observe(ot, w2, inv)
-        for k, msg in compare(base, other, {"models": models}):
+        found = compare(base, other, {"models": models})
+        diff_reads = LAST_DIFF.get("assignments") or []
+
+        def at_boundary(rk):
+            # a tailed read whose outermost aligned base at the tail side lies apa_delta (50) +-2 away from the 3' end of an isoform: the
+            # polyT position is reported 2 bases further out than the polyA position of the mirror image (known finding), so the isoform
+            # is within reach on one strand only
+            rd = next((r for r in w["reads"] if r["name"] == rk[0] and r.get("chr") == rk[1]), None)
+            if rd is None or not (rd.get("clip_left") or rd.get("clip_right")):
+                return False
+            pos = rd["blocks"][0][0] if rd.get("clip_left") else rd["blocks"][-1][1]
+            for g in w["genes"]:
+                if g["chr"] != rk[1]:
+                    continue
+                for t in g["transcripts"]:
+                    end3 = t["exons"][0][0] if rd.get("clip_left") else t["exons"][-1][1]
+                    if 48 <= abs(end3 - pos) <= 52:
+                        return True
+            return False
+        boundary = bool(diff_reads) and all(at_boundary(rk) for rk in diff_reads)
+        for k, msg in found:
+            if boundary and k in ("assignments", "transcript_counts", "gene_counts"):
+                k += ":polya-site-at-apa-delta-boundary"
             errs.append((k, msg))
     n = len(base.get("assignments", {}))
     shutil.rmtree(d, ignore_errors=True)
